@@ -5,7 +5,7 @@
    (inside, strictly_inside, subdivision, edge_neighbour, same_triangle_set, total_area, lattice_children, lattice_neighbours) is Model/C20Spec.v.
    HEIGHT_FACTOR is the universally quantified [h] ([T ROps] is [R]). *)
 From Coq Require Import ZArith List Bool Reals Lra.
-From PAV Require Import Base.Res Base.NumOps Model.C20 Model.C20Spec Proofs.C20 Proofs.C20Hist.
+From PAV Require Import Base.Res Base.NumOps Model.C20 Model.C20Spec Model.C20Scale Proofs.C20 Proofs.C20Hist Proofs.C20Scale.
 Import ListNotations.
 Local Open Scope R_scope.
 
@@ -209,6 +209,19 @@ Theorem C20_checker_neighbours_are_neighbours : forall (t n : rtri),
   In n (@spec_neighbours ROps t) <-> self_or_neighbour t n.
 Proof. exact spec_neighbours_are_neighbours. Qed.
 
+(* ------------------------------------------------------------ no intrinsic length scale
+   scale_pt / scale_tri / scale_shape multiply every length by s (Model/C20Scale.v).  Every containment decision of every
+   shape is unchanged when shape and triangle are scaled together (so a triangle of side 1e-12 is treated exactly like a
+   triangle of side 1: no absolute tolerance), and subdivision, reflection and area are covariant. *)
+Theorem C20_containment_scale_invariant : forall (s : R) (sh : shape ROps) (t : rtri),
+  0 < s -> shape_mask (scale_shape s sh) (scale_tri s t) = shape_mask sh t.
+Proof. exact shape_mask_scale. Qed.
+Theorem C20_operations_scale_covariant : forall (s : R) (ts : list rtri),
+  up_sample_triangles (map (scale_tri s) ts) = map (scale_tri s) (up_sample_triangles ts)
+  /\ neighborhood_triangles (map (scale_tri s) ts) = map (scale_tri s) (neighborhood_triangles ts)
+  /\ area (map (scale_tri s) ts) = s * s * area ts.
+Proof. intros s ts. split; [apply up_sample_scale|]. split; [apply neighborhood_scale|apply area_scale]. Qed.
+
 (* ------------------------------------------------------------ non-vacuity *)
 Definition ex_t : rtri := ((0, 0), (4, 0), (1, 3)).
 Example C20_hyps_satisfiable :
@@ -257,3 +270,4 @@ Print Assumptions C20_array_neighborhood_rows_distinct. Print Assumptions C20_ar
 Print Assumptions C20_coordinate_neighborhood_cells_distinct. Print Assumptions C20_coordinate_up_sample_cells_distinct.
 Print Assumptions C20_lattice_children_distinct. Print Assumptions C20_lattice_child_has_unique_parent.
 Print Assumptions C20_read_after_edits. Print Assumptions C20_edit_slots.
+Print Assumptions C20_containment_scale_invariant. Print Assumptions C20_operations_scale_covariant.
